@@ -150,12 +150,18 @@ class Executor:
     def live_ids(self, b):
         try:
             return [e.id for e in self.ds[self.bname[b]].get(-1)]
-        except KeyError:
+        except Exception:
             return None
 
     def proj(self):
         st = {}
-        listing = self.ds.buckets()
+        try:
+            listing = self.ds.buckets()
+        except Exception as e:
+            # the bucket listing itself cannot be produced: every bucket is recorded as existing in an unreadable state
+            # (no step of the specification produces it), the projection stays total
+            bad = {"ex": True, "type": "UNREADABLE-LISTING:" + type(e).__name__, "client": "?", "host": "?", "name": "?", "data": "?", "created": -99999, "idok": False}
+            return {b: dict(bad, evs=[], byid=[], count=-1, lst=dict(bad), hd=[]) for b in self.B}
         for b in self.B:
             rb = self.bname[b]
             lst = self.pmeta(listing[rb]) if rb in listing else {"ex": False}
@@ -195,8 +201,12 @@ class Executor:
     # -- execution -----------------------------------------------------------------------------
     BATCHABLE = ("create", "update", "delete_bucket", "absent", "insert", "replace", "delete")
 
+    dead = False
+
     def _observe(self, rec):
         rec["st"] = self.proj()
+        if any(str(rec["st"][b].get("type", "")).startswith("UNREADABLE-LISTING") for b in self.B):
+            self.dead = True          # recorded (and rejected by the judge); the history cannot be continued on this store
         for b in self.B:
             ex = rec["st"][b]["ex"]
             self.sh_exists[b] = bool(ex)
@@ -212,7 +222,7 @@ class Executor:
         'batch' record (sub-calls with their outcomes, then one observation of the full state)"""
         trace = []
         i = 0
-        while i < len(ops):
+        while i < len(ops) and not self.dead:
             if batch_prob and self.rnd.random() < batch_prob and ops[i]["op"] in self.BATCHABLE:
                 k = self.rnd.randint(2, 6)
                 subs, j = [], i
@@ -361,7 +371,10 @@ class Executor:
         ds, b = self.ds, op["b"]
         rb = self.bname[b]
         o = op["op"]
-        exists = rb in ds.buckets()
+        try:
+            exists = rb in ds.buckets()
+        except Exception:
+            exists = self.sh_exists[b]        # the listing cannot be produced (recorded by the projection): go by what the caller knows
         rec = {"op": o, "b": b}
         out = "ok"
         if o == "create":
